@@ -2,11 +2,16 @@
 //! (built offline from generated network files by verif_harness::appkit), every call under
 //! catch_unwind and a watchdog.
 //!
-//! streams
-//!   batch    the property on everything the current code is expected to satisfy, plus (first) the
-//!            witnesses of the listed known finding K_yens_k_ge_2
-//!   pending  families of classes reported to the coordinator and not (yet) listed as known findings:
-//!            `--only <id>` selects one class; the check runs this stream only for listed ids
+//! streams (any stream name other than `pending` / `dump-corpus` runs the main stream under that name)
+//!   batch        corpus witnesses (`--corpus DIR`: the listed known finding K_yens_k_ge_2 and every defect fixed in
+//!                /repo so far), then the deterministic families, then random mutated batches
+//!                `--boundary-only` no random cases; `--wrap` the binary was built with the `wrap` profile (the
+//!                one-edge Yen's witness is skipped there: it loops ~2^64 times while allocating)
+//!   pending      families of classes reported to the coordinator and not (yet) listed as known findings:
+//!                `--only <id>` selects one class; the check runs this stream only for listed ids (none at present)
+//!   dump-corpus  writes corpus/C12/*.json into --out (run by hand when a witness is added)
+//!   `--timeout-ms N` watchdog period (default 10000); a call that does not return (or grows the process by 2 GiB)
+//!   outside the known-finding class stops the stream: its abandoned thread may allocate without bound
 //!
 //! per case:  I = outcome class (Ok n | Err | Panic | Hang) + per response `class:request` (sorted keys)
 //!            M = PR.line_M: the Coq pipeline model (inject / grid_search / numeric load-balancer weights
@@ -842,8 +847,6 @@ fn run_case(st: &mut Stream, apps: &mut Apps, case: &Case, timeout: u64) -> bool
     } else {
         st.mark_nontrivial(&format!("{}{}", case.cfg_id, case.user));
     }
-    let persist_note = if cfg.persist { "" } else { "" };
-    let _ = persist_note;
     st.case(vec![m_term, s_term], vec![format!("I {} {}", id, i_payload)], desc);
     let any_k = yens_k.is_some()
         && case.user.as_array().map(|a| a.iter().any(|q| q.get("k").and_then(|k| k.as_u64()).unwrap_or(yens_k.unwrap() as u64) >= 2)).unwrap_or(false);
@@ -1023,9 +1026,6 @@ fn boundary(cat: &[AppCfg]) -> Vec<Case> {
     }
     v
 }
-fn good_unused() -> Value {
-    Value::Null
-}
 fn good_with_tag(q: &Value, tag: &str) -> Value {
     let mut q = q.clone();
     q["tag"] = json!(tag);
@@ -1064,7 +1064,7 @@ fn pending_cases(cat: &[AppCfg], only: &str) -> Vec<Case> {
         over: None,
     };
     // (every class reported so far was fixed in /repo and its families moved to the main stream)
-    let _ = (&mk, only, &good_unused());
+    let _ = (&mk, only);
     v
 }
 
